@@ -651,6 +651,23 @@ theorem binv_claim (s : St) (f v l x : Nat) (hb : BInv s) (hpc : s.pc f = .sRdBu
         · simp at hg'; omega
         · exact k g' v' hg'
 
+theorem upd_upd {α : Type} (g : Nat → α) (i : Nat) (a b : α) : upd (upd g i a) i b = upd g i b := by
+  funext j; simp only [upd]; split <;> rfl
+
+/-- the invariant does not mention the control / ghost fields of the try_receive extension -/
+theorem binv_ghost (s : St) (a b : Bool) (c : Nat) (hb : BInv s) :
+    BInv { s with tryMode := a, emptySeen := b, tryEmpty := c } := by
+  obtain ⟨b1, b2, b3, b4, b5, b6, b7, b8, b9, b10, b11, b12, b13, b14, b15, b16, b17⟩ := hb
+  exact ⟨b1, b2, b3, b4, b5, b6, b7, b8, b9, b10, b11, b12, b13, b14, b15, b16, b17⟩
+
+/-- send's publishing write on a spinning channel: the sender is done with the channel -/
+theorem binv_sWrite_spin (s : St) (f v h : Nat) (hb : BInv s) (hpc : s.pc f = .sClaimed v h) :
+    BInv { s with buf := upd s.buf (h % s.cap) v, pc := upd s.pc f (.sRaised v false) } := by
+  have h1 := binv_sWrite s f v h hb hpc
+  have h2 := binv_frame _ s.p f (.sRaised v false) h1 (by simp [Pc.pending]) (by simp [Pc.isRecv])
+    (by simp) (by simp) ⟨by simp, by simp, by simp⟩ (by simp) (by simp) (by simp) (by simp) (by simp)
+  simpa [upd_upd] using h2
+
 theorem binv_step_ldLow (s s' : St) (f l : Nat) (hk : s.kind = .bounded) (hb : BInv s)
     (hs : step s (.ldLow f l) = some s') : BInv s' := by
   simp only [step] at hs
@@ -698,10 +715,11 @@ theorem binv_step_ldHigh (s s' : St) (f h : Nat) (hk : s.kind = .bounded) (hb : 
       (by simp) (by simp) (by simp)
   · rename_i hpc
     simp at hs; subst hs
-    exact binv_frame s s.p f _ hb (by simp [hpc, Pc.pending]) (fun _ => hb.recv_id f (by simp [hpc, Pc.isRecv]))
+    exact binv_ghost _ s.tryMode (decide (s.high = s.low)) s.tryEmpty
+      (binv_frame s s.p f _ hb (by simp [hpc, Pc.pending]) (fun _ => hb.recv_id f (by simp [hpc, Pc.isRecv]))
       (by simp [hpc]) (by simp [hpc])
       ⟨by simp, by simp, by simp⟩ (by simp) (by simp) (by simp)
-      (by intro h' e; simp at e; omega) (by simp)
+      (by intro h' e; simp at e; omega) (by simp))
   · simp at hs
 
 theorem binv_step_rBuf (s s' : St) (f i x : Nat) (hk : s.kind = .bounded) (hb : BInv s)
@@ -729,10 +747,21 @@ theorem binv_step_rBuf (s s' : St) (f i x : Nat) (hk : s.kind = .bounded) (hb : 
         simp at hs; subst hs
         subst hi
         exact binv_rRead s f h l x hb hpc hx hc2.1 hc2.2
-      · simp at hs; subst hs
-        exact binv_frame s s.p f _ hb (by simp [hpc, Pc.pending]) (fun _ => hb.recv_id f (by simp [hpc, Pc.isRecv]))
-          (by simp [hpc]) (by simp [hpc])
-          ⟨by simp, by simp, by simp⟩ (by simp) (by simp) (by simp) (by simp) (by simp)
+      · simp only [emptyPc] at hs
+        split at hs
+        · simp at hs; subst hs
+          exact binv_frame s s.p f .tEmpty hb (by simp [hpc, Pc.pending]) (fun _ => hb.recv_id f (by simp [hpc, Pc.isRecv]))
+            (by simp [hpc]) (by simp [hpc])
+            ⟨by simp, by simp, by simp⟩ (by simp) (by simp) (by simp) (by simp) (by simp)
+        · split at hs
+          · simp at hs; subst hs
+            exact binv_frame s s.p f .rTop hb (by simp [hpc, Pc.pending]) (fun _ => hb.recv_id f (by simp [hpc, Pc.isRecv]))
+              (by simp [hpc]) (by simp [hpc])
+              ⟨by simp, by simp, by simp⟩ (by simp) (by simp) (by simp) (by simp) (by simp)
+          · simp at hs; subst hs
+            exact binv_frame s s.p f .rEmpty hb (by simp [hpc, Pc.pending]) (fun _ => hb.recv_id f (by simp [hpc, Pc.isRecv]))
+              (by simp [hpc]) (by simp [hpc])
+              ⟨by simp, by simp, by simp⟩ (by simp) (by simp) (by simp) (by simp) (by simp)
     · simp at hs
   · simp at hs
 
@@ -770,7 +799,10 @@ theorem binv_step_wBuf (s s' : St) (f i x : Nat) (hk : s.kind = .bounded) (hb : 
     rename_i hc
     obtain ⟨hi, hx⟩ := hc
     subst hi hx hs
-    exact binv_sWrite s f x h hb hpc
+    simp only [pubPc]
+    split
+    · exact binv_sWrite_spin s f x h hb hpc
+    · exact binv_sWrite s f x h hb hpc
   · rename_i h l m hpc
     split at hs <;> simp at hs
     rename_i hc
@@ -796,7 +828,7 @@ set_option maxHeartbeats 4000000 in
 theorem binv_step_callSend (s s' : St) (f v : _) (hk : s.kind = .bounded) (hb : BInv s) (hs : step s (.callSend f v) = some s') : BInv s' := by
   have hB := hb
   obtain ⟨b1, b2, b3, b4, b5, b6, b7, b8, b9, b10, b11, b12, b13, b14, b15, b16, b17⟩ := hb
-  simp only [step, hk] at hs
+  simp only [step, emptyPc, pubPc, hk] at hs
   repeat' (split at hs)
   all_goals (try simp at hs)
   all_goals (try contradiction)
@@ -807,7 +839,7 @@ set_option maxHeartbeats 4000000 in
 theorem binv_step_woke (s s' : St) (f r : _) (hk : s.kind = .bounded) (hb : BInv s) (hs : step s (.woke f r) = some s') : BInv s' := by
   have hB := hb
   obtain ⟨b1, b2, b3, b4, b5, b6, b7, b8, b9, b10, b11, b12, b13, b14, b15, b16, b17⟩ := hb
-  simp only [step, hk] at hs
+  simp only [step, emptyPc, pubPc, hk] at hs
   repeat' (split at hs)
   all_goals (try simp at hs)
   all_goals (try contradiction)
@@ -818,7 +850,7 @@ set_option maxHeartbeats 4000000 in
 theorem binv_step_retSend (s s' : St) (f : _) (hk : s.kind = .bounded) (hb : BInv s) (hs : step s (.retSend f) = some s') : BInv s' := by
   have hB := hb
   obtain ⟨b1, b2, b3, b4, b5, b6, b7, b8, b9, b10, b11, b12, b13, b14, b15, b16, b17⟩ := hb
-  simp only [step, hk] at hs
+  simp only [step, emptyPc, pubPc, hk] at hs
   repeat' (split at hs)
   all_goals (try simp at hs)
   all_goals (try contradiction)
@@ -829,7 +861,18 @@ set_option maxHeartbeats 4000000 in
 theorem binv_step_callRecv (s s' : St) (f : _) (hk : s.kind = .bounded) (hb : BInv s) (hs : step s (.callRecv f) = some s') : BInv s' := by
   have hB := hb
   obtain ⟨b1, b2, b3, b4, b5, b6, b7, b8, b9, b10, b11, b12, b13, b14, b15, b16, b17⟩ := hb
-  simp only [step, hk] at hs
+  simp only [step, emptyPc, pubPc, hk] at hs
+  repeat' (split at hs)
+  all_goals (try simp at hs)
+  all_goals (try contradiction)
+  all_goals (first | subst hs | (obtain ⟨_, hs⟩ := hs; subst hs))
+  all_goals (constructor <;> cb_close)
+
+set_option maxHeartbeats 4000000 in
+theorem binv_step_callTry (s s' : St) (f : _) (hk : s.kind = .bounded) (hb : BInv s) (hs : step s (.callTry f) = some s') : BInv s' := by
+  have hB := hb
+  obtain ⟨b1, b2, b3, b4, b5, b6, b7, b8, b9, b10, b11, b12, b13, b14, b15, b16, b17⟩ := hb
+  simp only [step, emptyPc, pubPc, hk] at hs
   repeat' (split at hs)
   all_goals (try simp at hs)
   all_goals (try contradiction)
@@ -840,7 +883,7 @@ set_option maxHeartbeats 4000000 in
 theorem binv_step_retRecv (s s' : St) (f v : _) (hk : s.kind = .bounded) (hb : BInv s) (hs : step s (.retRecv f v) = some s') : BInv s' := by
   have hB := hb
   obtain ⟨b1, b2, b3, b4, b5, b6, b7, b8, b9, b10, b11, b12, b13, b14, b15, b16, b17⟩ := hb
-  simp only [step, hk] at hs
+  simp only [step, emptyPc, pubPc, hk] at hs
   repeat' (split at hs)
   all_goals (try simp at hs)
   all_goals (try contradiction)
@@ -851,7 +894,7 @@ set_option maxHeartbeats 4000000 in
 theorem binv_step_wNext (s s' : St) (f n x : _) (hk : s.kind = .bounded) (hb : BInv s) (hs : step s (.wNext f n x) = some s') : BInv s' := by
   have hB := hb
   obtain ⟨b1, b2, b3, b4, b5, b6, b7, b8, b9, b10, b11, b12, b13, b14, b15, b16, b17⟩ := hb
-  simp only [step, hk] at hs
+  simp only [step, emptyPc, pubPc, hk] at hs
   repeat' (split at hs)
   all_goals (try simp at hs)
   all_goals (try contradiction)
@@ -862,7 +905,7 @@ set_option maxHeartbeats 4000000 in
 theorem binv_step_xchgTail (s s' : St) (f o n : _) (hk : s.kind = .bounded) (hb : BInv s) (hs : step s (.xchgTail f o n) = some s') : BInv s' := by
   have hB := hb
   obtain ⟨b1, b2, b3, b4, b5, b6, b7, b8, b9, b10, b11, b12, b13, b14, b15, b16, b17⟩ := hb
-  simp only [step, hk] at hs
+  simp only [step, emptyPc, pubPc, hk] at hs
   repeat' (split at hs)
   all_goals (try simp at hs)
   all_goals (try contradiction)
@@ -873,7 +916,7 @@ set_option maxHeartbeats 4000000 in
 theorem binv_step_ldTail (s s' : St) (f t : _) (hk : s.kind = .bounded) (hb : BInv s) (hs : step s (.ldTail f t) = some s') : BInv s' := by
   have hB := hb
   obtain ⟨b1, b2, b3, b4, b5, b6, b7, b8, b9, b10, b11, b12, b13, b14, b15, b16, b17⟩ := hb
-  simp only [step, hk] at hs
+  simp only [step, emptyPc, pubPc, hk] at hs
   repeat' (split at hs)
   all_goals (try simp at hs)
   all_goals (try contradiction)
@@ -884,7 +927,7 @@ set_option maxHeartbeats 4000000 in
 theorem binv_step_stTail (s s' : St) (f n : _) (hk : s.kind = .bounded) (hb : BInv s) (hs : step s (.stTail f n) = some s') : BInv s' := by
   have hB := hb
   obtain ⟨b1, b2, b3, b4, b5, b6, b7, b8, b9, b10, b11, b12, b13, b14, b15, b16, b17⟩ := hb
-  simp only [step, hk] at hs
+  simp only [step, emptyPc, pubPc, hk] at hs
   repeat' (split at hs)
   all_goals (try simp at hs)
   all_goals (try contradiction)
@@ -895,7 +938,7 @@ set_option maxHeartbeats 4000000 in
 theorem binv_step_rHead (s s' : St) (f h : _) (hk : s.kind = .bounded) (hb : BInv s) (hs : step s (.rHead f h) = some s') : BInv s' := by
   have hB := hb
   obtain ⟨b1, b2, b3, b4, b5, b6, b7, b8, b9, b10, b11, b12, b13, b14, b15, b16, b17⟩ := hb
-  simp only [step, hk] at hs
+  simp only [step, emptyPc, pubPc, hk] at hs
   repeat' (split at hs)
   all_goals (try simp at hs)
   all_goals (try contradiction)
@@ -906,7 +949,7 @@ set_option maxHeartbeats 4000000 in
 theorem binv_step_wHead (s s' : St) (f x : _) (hk : s.kind = .bounded) (hb : BInv s) (hs : step s (.wHead f x) = some s') : BInv s' := by
   have hB := hb
   obtain ⟨b1, b2, b3, b4, b5, b6, b7, b8, b9, b10, b11, b12, b13, b14, b15, b16, b17⟩ := hb
-  simp only [step, hk] at hs
+  simp only [step, emptyPc, pubPc, hk] at hs
   repeat' (split at hs)
   all_goals (try simp at hs)
   all_goals (try contradiction)
@@ -917,7 +960,7 @@ set_option maxHeartbeats 4000000 in
 theorem binv_step_rNext (s s' : St) (f n x : _) (hk : s.kind = .bounded) (hb : BInv s) (hs : step s (.rNext f n x) = some s') : BInv s' := by
   have hB := hb
   obtain ⟨b1, b2, b3, b4, b5, b6, b7, b8, b9, b10, b11, b12, b13, b14, b15, b16, b17⟩ := hb
-  simp only [step, hk] at hs
+  simp only [step, emptyPc, pubPc, hk] at hs
   repeat' (split at hs)
   all_goals (try simp at hs)
   all_goals (try contradiction)
@@ -928,7 +971,7 @@ set_option maxHeartbeats 4000000 in
 theorem binv_step_rData (s s' : St) (f n d : _) (hk : s.kind = .bounded) (hb : BInv s) (hs : step s (.rData f n d) = some s') : BInv s' := by
   have hB := hb
   obtain ⟨b1, b2, b3, b4, b5, b6, b7, b8, b9, b10, b11, b12, b13, b14, b15, b16, b17⟩ := hb
-  simp only [step, hk] at hs
+  simp only [step, emptyPc, pubPc, hk] at hs
   repeat' (split at hs)
   all_goals (try simp at hs)
   all_goals (try contradiction)
@@ -939,7 +982,7 @@ set_option maxHeartbeats 4000000 in
 theorem binv_step_wData (s s' : St) (f n d : _) (hk : s.kind = .bounded) (hb : BInv s) (hs : step s (.wData f n d) = some s') : BInv s' := by
   have hB := hb
   obtain ⟨b1, b2, b3, b4, b5, b6, b7, b8, b9, b10, b11, b12, b13, b14, b15, b16, b17⟩ := hb
-  simp only [step, hk] at hs
+  simp only [step, emptyPc, pubPc, hk] at hs
   repeat' (split at hs)
   all_goals (try simp at hs)
   all_goals (try contradiction)
@@ -967,6 +1010,7 @@ theorem binv_step (s s' : St) (e : Ev) (hk : s.kind = .bounded) (hb : BInv s) (h
   | woke f r => exact binv_step_woke s s' f r hk hb hs
   | retSend f => exact binv_step_retSend s s' f hk hb hs
   | callRecv f => exact binv_step_callRecv s s' f hk hb hs
+  | callTry f => exact binv_step_callTry s s' f hk hb hs
   | retRecv f v => exact binv_step_retRecv s s' f v hk hb hs
   | ldLow f l => exact binv_step_ldLow s s' f l hk hb hs
   | ldHigh f h => exact binv_step_ldHigh s s' f h hk hb hs
@@ -984,9 +1028,10 @@ theorem binv_step (s s' : St) (e : Ev) (hk : s.kind = .bounded) (hb : BInv s) (h
   | rData f n d => exact binv_step_rData s s' f n d hk hb hs
   | wData f n d => exact binv_step_wData s s' f n d hk hb hs
 
-theorem binv_of_run {cap : Nat} {es : List Ev} {s : St} (h : (sys .bounded cap).run es = some s) : BInv s := by
+theorem binv_of_run {spin : Bool} {cap : Nat} {es : List Ev} {s : St}
+    (h : (sysM spin .bounded cap).run es = some s) : BInv s := by
   have : s.kind = .bounded ∧ BInv s :=
-    Sys.inv_of_run (sys .bounded cap) (fun s => s.kind = .bounded ∧ BInv s) ⟨rfl, binv_init cap⟩
+    Sys.inv_of_run (sysM spin .bounded cap) (fun s => s.kind = .bounded ∧ BInv s) ⟨rfl, binv_initM spin cap⟩
       (fun s e s' hi hs => ⟨(kind_step s s' e hs).1.trans hi.1, binv_step s s' e hi.1 hi.2 hs⟩) h
   exact this.2
 
